@@ -88,6 +88,16 @@ class _Str(Kind):
 INT, REAL, BOOL, NONE, EXT, STR = _Int(), _Real(), _Bool(), _None(), _Ext(), _Str()
 
 
+class _Any(Kind):
+    """any value (only for parameters of ASSUMED contracts: the argument is passed through unchanged)"""
+    def cols(self): return []
+    def from_cols(self, t): raise TypeError("ANY is not storable")
+    def fresh(self, base): raise TypeError("ANY cannot be introduced symbolically")
+
+
+ANY = _Any()
+
+
 @dataclass(frozen=True)
 class FUNC(Kind):
     """a callable parameter, modelled as an uninterpreted function  Ref -> result kind (INT / REAL)"""
